@@ -116,6 +116,10 @@ def dispatch (c : Case) : Res :=
   | "note" => (match c.ob "panic" with
       | some m => { status := "ORACLE", detail := s!"panic while loading a corrupted document ({c.arg "corruption"}): {m}" }
       | none => { status := "ok", stats := [s!"note.rejected.{c.arg "corruption"}"] })
+  -- harness-side comparison of two runs of the real code (no model involved): `fail` = they differ
+  | "chk" => (match c.ob "fail" with
+      | some m => { status := "ORACLE", detail := s!"{c.arg "what"}: {" ".intercalate m}", stats := [s!"chk.{c.arg "what"}"] }
+      | none => { status := "ok", stats := [s!"chk.{c.arg "what"}"] })
   | "loc" => runLoc c
   | "hull" => runHull c
   | "qry" => runQry c
